@@ -37,10 +37,10 @@ FOLDS = {
  "C07": "_make_array, BaseArray._read / _write, the generic _read_array, the array slots of the scalar codecs, the compiled reader on sequences with arrays",
  "C08": "the reading slots of the scalar codecs, StructureMetaType.__call__, MetaType.__call__, BaseArray, truncated images in the compiled reader",
  "C09": "_is_eof / the generic _read_array, LEB128, the call forms (MetaType / Structure / Union __call__), the input predicates, Pointer.dereference, the interpreted structure reader / writer, the layout calculator",
- "C10": "Expression._mark_unary_minus (bounded-exhaustive over token lists), a computed precedence table",
+ "C10": "Expression._mark_unary_minus (bounded-exhaustive over token lists), a computed precedence table, Parser._array_count, _make_array, the token parser",
  "C11": "the union layout calculator, UnionMetaType.__call__, the union writer, StructureMetaType.__call__",
  "C12": "the enum / flag numbering statements, Enum.__eq__ / Flag.__eq__, the bit buffer reader, the compiled reader on sequences with enums",
- "C13": "cstruct.resolve over alias tables, cstruct.__getattr__, the comment replacer, add_type",
+ "C13": "the token parser (TokenParser.parse interpreted against a model cstruct object: reference tables, comment / spacing / order variants, refused texts), cstruct.resolve over alias tables, cstruct.__getattr__, the comment replacer, add_type, Parser._array_count",
  "C16": "Pointer.dereference, the null-terminated readers of char / wchar, the default-pointer expression, the compiled reader on sequences with pointers",
  "C17": "the generated-method patchers for every field count (bytecode layout), one default object per field, MetaType.__call__, the bit buffer writer, BaseArray",
  "C18": "StructureMetaType.__call__, _update_fields, add_field",
